@@ -329,7 +329,9 @@ def sinks_obligation(run: lib.Run, audit: dict) -> tuple[bool, bool, str, dict |
     """run and register the per-run obligation C11_sinks_translated and the comparison with CPython; returns (obligation discharged,
     comparison ok, Lean's message or the comparison's, the extracted translation)"""
     tr = audit["facts"].get("translated_sinks")
-    untranslatable = isinstance(tr, dict) and "extraction_failed" in tr
+    untranslatable = isinstance(tr, dict) and ("extraction_failed" in tr or "failed" in tr.get("engine_sinks", {}))
+    if untranslatable and "extraction_failed" not in tr:
+        tr = {**tr, "extraction_failed": tr["engine_sinks"]["failed"]}
     ok_tr, detail_tr = lib.run_obligation("C11_sinks_translated", deps=["C01_translated"])
     run.obligation("C11_sinks_translated: Generated.Src.engine_sinks (the current source text of Guard._evaluate_core_async from `if self.metrics "
                    "is not None:` to `return d`, as a sink-call trace; the three sinks as parameters: absent / def / async def, returning / raising) "
@@ -426,6 +428,13 @@ def check(run: lib.Run, audit: dict) -> int:
     # the sink block itself (which sinks are called, how often, in which order, with what; that nothing they do reaches the Decision) as
     # the engine is written NOW: a sink-call trace proved equal to its specification and to the model's events
     ok_sk, ok_sk_py, detail_sk, tr_sk = sinks_obligation(run, audit)
+    # … and that block is run exactly once per evaluation, and is the only place that touches the sinks (the assembly of the method; C14's)
+    from props import c14 as _c14
+    ok_asm, detail_asm = _c14.core_assembly_obligation(run, audit)
+    which = "Rbacx/Run/C11_sinks_translated.lean"
+    if not ok_asm and ok_sk:
+        ok_sk, detail_sk, which = False, detail_asm, ("Rbacx/Run/C14_core_assembly.lean (the sink block is no longer the only place that touches the "
+                                                      "sinks, or is no longer run exactly once per evaluation)")
     sink_matrix_on_engine(run)
     run_cases(run, audit, scale=run.boost * (1 if ok_tr and ok_sk else 2))
     violations = []
@@ -435,7 +444,7 @@ def check(run: lib.Run, audit: dict) -> int:
         path = run.write_replay("spec", {"what": "C11 violated on the real engine", "case": run.spec_failures[0], "count": len(run.spec_failures)})
         violations.append((path, True))
     elif not ok_sk and ok_tr:
-        path = run.write_replay("obligation", {"what": "per-run obligation Rbacx/Run/C11_sinks_translated.lean no longer checks: the translated source of "
+        path = run.write_replay("obligation", {"what": "per-run obligation " + which + " no longer checks: the translated source of "
                                                "the engine's sink block (Guard._evaluate_core_async from `if self.metrics is not None:` to `return d`) "
                                                "is not proved to return the Decision it was handed, to call inc / observe / log exactly once in this "
                                                "order whatever the sinks do, or to hand them the labels / payload of the model's events "
